@@ -208,7 +208,7 @@ def source_untouched(o, n):
     return z3.And(b.same(a), b.arr == a.arr, b.lo == a.lo, b.hi == a.hi)
 
 
-@contract(f"{M}.discard_start", properties=("C18", "C01"))
+@contract(f"{M}.discard_start", properties=("C18", "C01", "C07"))
 class _:
     params = {"self": OR}
     result = NONE
@@ -253,7 +253,7 @@ class _:
     }
 
 
-@contract(f"{M}.discard_end", properties=("C18", "C01"))
+@contract(f"{M}.discard_end", properties=("C18", "C01", "C07"))
 class _:
     params = {"self": OR}
     result = NONE
